@@ -388,6 +388,12 @@ func genCaseSig(t *rapid.T) CaseSig {
 	}
 	// the base: fingerprinted headers with fillers in between
 	for _, s := range slots {
+		if oneIn(t, "filler_needle", 60) {
+			// many other headers in front of a fingerprinted one (its first occurrence far down the header array)
+			for k := manyN(t, "filler_many", 110); k > 0; k-- {
+				c.Base = append(c.Base, fillerHeader(t))
+			}
+		}
 		for rapid.IntRange(0, 2).Draw(t, "filler") == 0 {
 			c.Base = append(c.Base, fillerHeader(t))
 		}
